@@ -70,6 +70,14 @@ def directed_cases():
             out.append({"id": f"rootlink{v}-{d}", "names": ["a", "sub/b c", "stale", "z"], "secs": [1_700_000_000, 1_600_000_000, 5],
                         "src": [[1, 1, 0], [2, 1, 1], [], [3, 2, 0]], "dst": [[1, 1, 0], [], [2, 2, 0], [1, 2, 0]],
                         "pats": [], "del": dl, "dry": False, "dir": d, "jobs": 1 + v % 2, "root_link": side})
+    # exclude patterns that match nothing in the trees but do match the roots' OWN directory names (the run's roots are
+    # .../src and .../dst): patterns are about paths relative to the roots, so the plan, the dry run's listing and the real
+    # run's effects are those of a run without them
+    for d in ("local", "push", "pull"):
+        for v, (pats, dl, dry) in enumerate([(["dst", "src"], True, False), (["?st", "s?c", "d*"], True, False), (["dst"], True, True), (["src", "dst"], False, False)]):
+            out.append({"id": f"rootname{v}-{d}", "names": ["keep", "stale", "sub/stale2", "new"], "secs": [1_700_000_000, 1_600_000_000, 5],
+                        "src": [[1, 1, 0], [], [], [2, 1, 0]], "dst": [[1, 1, 0], [3, 2, 0], [2, 2, 0], []],
+                        "pats": pats, "del": dl, "dry": dry, "dir": d, "jobs": 1 + v % 2})
     return out
 
 
